@@ -4,14 +4,14 @@ from common import VERIF
 
 READY = True
 
-STAGE = "2 (stage 1 + model code generator compared with the real instruction streams, model VM compared with exec and the engine; no refinement theorem yet)"
+STAGE = "3-partial: vm_refines_eval_partial proved for text/emit/set/if over expressions with constant folding, short-circuit and/or, if-expressions, filters, tests, attribute/item access, list/map literals (no chained comparison, no call); stage 2 (model code generator == real instruction stream, model VM == exec == engine) checked on every generated program without macros; for/with/captures/break/continue not yet proved"
 
 META = {
-    "technique": "Lean 4 reference interpreter (big-step, scopes as heap cells) with kernel-checked scoping / loop-variable / for-else laws; differential oracle: typed random programs -> real parser (AST dumped and compared) -> Template::render vs. the Lean interpreter on the dumped AST, failures shrunk by delta debugging",
+    "technique": "Lean 4: reference interpreter of the core fragment with kernel-checked scoping / loop-variable / for-else laws; model of the code generator (back-patched absolute jumps) and of the VM with a kernel-checked refinement theorem for a fragment; ties: typed random programs -> real parser (AST dumped and compared) -> (a) Template::render vs. the interpreter (oracle, delta-debugging shrinker), (b) model code generator vs. the real instruction stream instruction by instruction, (c) model VM vs. engine and vs. the interpreter; tables regenerated from source",
     "category": "proof",
-    "text": "MJ/Model/Eval.lean is the documented semantics of the core fragment (expressions, if/elif/else, for/else/filter/unpacking/loop, set, set-block, with, filter-block, macros with defaults and keyword arguments, call blocks, break/continue) as a structurally recursive interpreter that shares nothing with the compiler and VM. Kernel-checked theorems: assignments inside for/with/macro/call-block bodies leave every enclosing scope unchanged, assignments at template level and in if-branches persist, the loop object of iteration i is <i, len, xs[i-1]?, xs[i+1]?> for every list, the else branch runs iff the filtered sequence is empty. The implementation is tied to it by rendering generated programs with the real engine (real parser in the loop, AST equality asserted) and comparing output / error-or-not with the interpreter.",
+    "text": "MJ/Model/Eval.lean is the documented semantics of the core fragment (expressions, if/elif/else, for/else/filter/unpacking/loop, set, set-block, with, filter-block, macros with defaults and keyword arguments, call blocks, break/continue) as a structurally recursive interpreter that shares nothing with the compiler and VM. Kernel-checked: assignments inside for/with/macro/call-block bodies leave every enclosing scope unchanged, assignments at template level and in if-branches persist, the loop object of iteration i is <i, len, xs[i-1]?, xs[i+1]?> for every list, the else branch runs iff the filtered sequence is empty; constant folding is sound; the back-patching code generator model equals a structured generator with resolved targets; vm_refines_eval_partial: the model VM on the generated code renders what the interpreter renders, for templates of text / emit / set / if over expressions with short-circuit and/or, if-expressions, filters, tests, attribute and item access, list and map literals. The engine is tied to the models by rendering generated programs with the real engine (real parser in the loop), by comparing the real instruction streams with the model generator's, and by running the model VM.",
     "design_ref": "DESIGN.md §3 C03",
-    "level_note": "Stage reached: " + STAGE + ". Trusted: Lean kernel; the reading of syntax.rs in MJ/Model/Eval.lean; harness unparse + serde AST dump (checked by AST equality on every case). The compiler/VM are NOT modelled in Lean at this stage (no vm_refines_eval): they are covered by the sampled differential oracle only.",
+    "level_note": "Stage reached: " + STAGE + ". Trusted: Lean kernel; the reading of syntax.rs in MJ/Model/Eval.lean; hand transcription of codegen.rs / vm/mod.rs in MJ/Model/{Compile,Vm}.lean (validated on every generated macro-free program: instruction streams identical, VM results identical); harness unparse + serde AST dump (checked by AST equality on every case). Not proved: refinement for for/with/captures/break/continue/chained comparisons (checked by running the model VM against exec and the engine on every generated program), macros and call blocks (render oracle only; not modelled in Compile/Vm).",
 }
 
 STMT_HEADS = {"text", "emit", "ifs", "for", "set", "setb", "with", "fblk", "macro", "callb", "break", "continue"}
@@ -86,6 +86,10 @@ def variants(prog):
                     out.append(rebuild(node[:i] + [st[:3] + ["_"] + st[4:]] + node[i + 1:]))  # drop the loop filter
         elif h in EXPR_HEADS and h not in ("c", "v"):
             for sub in node[1:]:
+                # the bare `loop` object is outside the fragment (only `loop.<attr>` is): never
+                # reduce `loop.x` to `loop`
+                if sub == ["v", "loop"]:
+                    continue
                 if head(sub) in EXPR_HEADS:
                     out.append(rebuild(sub))                                       # replace by a sub-expression
                 elif isinstance(sub, list):
@@ -216,7 +220,7 @@ def run(r):
         "results outside the fragment (list + list, list * int, non-string map keys, bool subscripts) are skipped, not judged",
     ]
     r.extra["stage"] = STAGE
-    r.regen_tables()
+    r.regen_tables(needed=["C03_LOOP_ATTRS", "C03_LOOP_FLAG_WITH_LOOP_VAR", "C03_RESERVED_NAMES", "MAX_LOCALS", "VALUE_KIND_ORDER"])
     r.lean_prove("MJ.Props.C03", "MJ/Audit/C03.lean", extra_targets=["drive_c03"])
     exe = r.cargo_build("c03")
     if exe is None:
@@ -235,7 +239,7 @@ def run(r):
     cases = []
     if corpus:
         res = runner.run_full(corpus)
-        cases += [(cid, c, p, l[3], m[1], unhex(l[4]), "kinds=corpus", l[6], m[2], m[3]) for (cid, c, p), (l, m) in zip(corpus, res)]
+        cases += [(cid, c, p, l[3], m[1], unhex(l[4]), "kinds=corpus", l[6], m[2], m[3], m[4]) for (cid, c, p), (l, m) in zip(corpus, res)]
 
     # ---- generated programs
     rc, out, err = r.harness(exe, ["gen", r.tier, str(n)])
@@ -249,16 +253,24 @@ def run(r):
         return
     for l, m in zip(lines, model):
         mf = m.split("\t")
-        if mf[0] != l[0] or len(mf) != 4 or len(l) != 7:
+        if mf[0] != l[0] or len(mf) != 5 or len(l) != 7:
             r.broken.append("model driver answered out of order / malformed line")
             return
-        cases.append((l[0], l[1], l[2], l[3], mf[1], unhex(l[4]), l[5], l[6], mf[2], mf[3]))
+        cases.append((l[0], l[1], l[2], l[3], mf[1], unhex(l[4]), l[5], l[6], mf[2], mf[3], mf[4]))
 
     conds = constconds = 0
     skipped = 0
     nfail = 0
     ncode = nvm = 0
-    for cid, ctx, prog, impl, mres, src, stats, realcode, modelcode, vmres in cases:
+    nfrag = 0
+    for cid, ctx, prog, impl, mres, src, stats, realcode, modelcode, vmres, frag in cases:
+        if frag == "frag3":
+            nfrag += 1
+            r.hist["proved_fragment"]["in (vm_refines_eval_partial applies)"] += 1
+            if modelcode == "oof":
+                r.broken.append(f"program of the proved fragment is not compiled by the model generator: {src}")
+        else:
+            r.hist["proved_fragment"]["outside"] += 1
         # ---- stage 2 streams: model code generator vs real instruction stream, model VM vs engine / exec
         if modelcode != "oof" and realcode != "-":
             ncode += 1
@@ -304,6 +316,7 @@ def run(r):
                                  "unshrunk:" + "+".join(sorted(kinds_of(sx_parse(prog), set()))))
         if len(r.samples) < 8 and kinds and cid.startswith("g") and int(cid[1:]) % 400 == 7:
             r.sample({"source": src, "ctx": ctx, "engine": show(impl), "spec": show(mres)})
+    r.extra["programs_in_proved_fragment"] = nfrag
     r.extra["codegen_streams_compared"] = ncode
     r.extra["vm_runs_compared"] = nvm
     r.extra["conditions_generated"] = conds
